@@ -9,3 +9,4 @@ mod h_disp;
 mod h_div;
 mod h_pi;
 mod h_sweep;
+mod h_sa;
